@@ -4,6 +4,8 @@ package main
 // transfer syntax of coq/extract/fsconv.ml, a zstd frame-structure check, error classes.
 
 import (
+	"context"
+	"sync/atomic"
 	"encoding/binary"
 	"encoding/hex"
 	"errors"
@@ -69,6 +71,37 @@ func encodeTree(base string, ents []fsEnt) string {
 	return strings.Join(parts, ",")
 }
 
+// encodeTreeOutside: as encodeTree, plus files that live next to the store directory (model path "o/...").
+func encodeTreeOutside(base string, ents, outside []fsEnt) string {
+	t := encodeTree(base, ents)
+	for _, e := range outside {
+		t += "," + e.Kind + ":" + lsHx([]byte("o/"+e.Path)) + ":" + lsHx(e.Data)
+	}
+	return t
+}
+
+// countCtx is a context that is found cancelled from the at-th look at Done() on: Prune and Verify look
+// once per walk callback, so this places the cancellation at any point of the run, deterministically.
+type countCtx struct {
+	context.Context
+	n, at int32
+}
+
+var closedCh = func() chan struct{} { c := make(chan struct{}); close(c); return c }()
+
+func (c *countCtx) Done() <-chan struct{} {
+	if c.at > 0 && atomic.AddInt32(&c.n, 1) >= c.at {
+		return closedCh
+	}
+	return nil
+}
+func (c *countCtx) Err() error {
+	if c.at > 0 && atomic.LoadInt32(&c.n) >= c.at {
+		return context.Canceled
+	}
+	return nil
+}
+
 // decodeTree parses the oracle's answer, stripping the base prefix again.
 func decodeTree(base, s string) ([]fsEnt, error) {
 	var out []fsEnt
@@ -81,7 +114,7 @@ func decodeTree(base, s string) ([]fsEnt, error) {
 			return nil, fmt.Errorf("bad tree entry %q", e)
 		}
 		p := string(lsUnhx(f[1]))
-		if p == base {
+		if p == base || !strings.HasPrefix(p, base+"/") {
 			continue
 		}
 		p = strings.TrimPrefix(p, base+"/")
@@ -116,6 +149,9 @@ func writeTree(root string, ents []fsEnt) error {
 				return err
 			}
 		case "l":
+			if err := os.MkdirAll(filepath.Dir(p), 0755); err != nil {
+				return err
+			}
 			if err := os.Symlink(string(e.Data), p); err != nil {
 				return err
 			}
